@@ -228,7 +228,11 @@ fn apply_edit(f: &mut FactSet, edit: &str, rng: &mut Rng) -> bool {
     match edit {
         "rename_term" => {
             let i = rng.usize_below(f.terms.len());
-            f.terms[i].name.push_str(" (renamed)");
+            if f.terms[i].name.len() > 200 {
+                f.terms[i].name = format!("renamed {}", f.terms[i].id);
+            } else {
+                f.terms[i].name.push_str(" (renamed)");
+            }
             true
         }
         "add_parent" => {
@@ -300,7 +304,11 @@ fn apply_edit(f: &mut FactSet, edit: &str, rng: &mut Rng) -> bool {
                 return false;
             }
             let i = rng.usize_below(f.recs[k].len());
-            f.recs[k][i].name.push('x');
+            if f.recs[k][i].name.len() > 200 {
+                f.recs[k][i].name = format!("renamed {}", f.recs[k][i].id);
+            } else {
+                f.recs[k][i].name.push('x');
+            }
             true
         }
         "add_record" => {
@@ -426,6 +434,7 @@ impl Monitor for C18 {
         let mut v: Vec<String> = EDITS.iter().map(|e| format!("single_edit/{e}")).collect();
         v.push("self_comparisons".into());
         v.push("mirror_comparisons".into());
+        v.push("name_at_255_byte_limit".into());
         v
     }
     fn run_case(&self, label: &str, seed: u64, tier: Tier) -> CaseOut {
@@ -441,6 +450,20 @@ impl Monitor for C18 {
             ..GenCfg::default()
         };
         let mut old = crate::gen::gen_facts(&mut rng, &cfg);
+        // names at the 255-byte limit of the binary format (the round-trip comparison must stay empty)
+        if rng.chance(1, 3) {
+            let i = rng.usize_below(old.terms.len());
+            if old.terms[i].id != 1 && old.terms[i].id != 118 {
+                let tail = *rng.pick(&["", "é", "€", "😀"]);
+                let total = rng.urange(253, 255);
+                old.terms[i].name = format!("{}{tail}", "n".repeat(total - tail.len()));
+                out.bucket("name_at_255_byte_limit");
+            }
+            if let Some(g) = old.recs[0].first_mut() {
+                let tail = *rng.pick(&["", "é", "€", "😀"]);
+                g.name = format!("{}{tail}", "G".repeat(255 - tail.len()));
+            }
+        }
         let mut new = old.clone();
         let mut applied: Vec<String> = Vec::new();
         if parts[0] == "edit" {
